@@ -124,12 +124,16 @@ theorem C04_keep_partial (db : Db) (fuel : Nat) (r : Request) (hkeep : r.keep = 
     | found d reason =>
       rw [hres] at h
       obtain ⟨hc, hname⟩ := resolve_spec _ _ _ _ ha0 _ _ _ _ _ _ _ _ hres
-      -- the registered state mirrors every record
-      have hreg : register (r.cfg db) 0 d reason (St.init e) =
-          ⟨e, [], [], aset (alreadyOfEnv db e) d.name (d, reason)⟩ := by simp [register, St.init, Request.cfg]
       simp only at h
+      have hpd : pickDecl (r.cfg db).db (St.init e).cache d = d := rfl
+      rw [hpd] at h
+      generalize hcache : ((St.init e).afterResolve (r.cfg db) 0 r.vro r.name r.version none).cache = c0
+      -- the registered state mirrors every record
+      have hreg : register (r.cfg db) 0 d reason ((St.init e).afterResolve (r.cfg db) 0 r.vro r.name r.version none) =
+          ⟨e, [], [], aset (alreadyOfEnv db e) d.name (d, reason), c0⟩ := by
+        rw [← hcache]; simp [register, St.init, St.afterResolve, Request.cfg]
       rw [hreg] at h
-      have hmir : Mirror ⟨e, [], [], aset (alreadyOfEnv db e) d.name (d, reason)⟩ := by
+      have hmir : Mirror ⟨e, [], [], aset (alreadyOfEnv db e) d.name (d, reason), c0⟩ := by
         intro m v hmv
         have hne : m ≠ d.name := by intro e'; rw [e', hname, hnot] at hmv; cases hmv
         obtain ⟨d', hg, hv⟩ := aget_alreadyOfEnv db e.recs hdecl m v hmv
@@ -141,7 +145,7 @@ theorem C04_keep_partial (db : Db) (fuel : Nat) (r : Request) (hkeep : r.keep = 
       have hvro : VroEnt.keep ∈ r.vro := by
         unfold Request.vro; rw [hkeep]; exact selectVRO_keep _ _
       have hpost := install_keep (r.cfg db) (setup (r.cfg db) k) (setup_alOK _ k) (setup_keepSpec _ k) 0 false r.vro hvro
-        d reason hc ⟨e, [], [], aset (alreadyOfEnv db e) d.name (d, reason)⟩ hal hmir (by
+        d reason hc ⟨e, [], [], aset (alreadyOfEnv db e) d.name (d, reason), c0⟩ hal hmir (by
           intro sd hsp
           obtain ⟨_, _, hr⟩ := setupProd_some _ _ _ _ hsp
           rw [hname, hnot] at hr; cases hr)
